@@ -374,6 +374,21 @@ def rule_WT3(ctx, tier):
     return rr
 
 
+def _const_defs_in(x):
+    """names of the constants used anywhere inside an rvalue (as extracted: nested dicts / lists)"""
+    out = []
+    if isinstance(x, dict):
+        d = x.get("def")
+        if isinstance(d, str):
+            out.append(d)
+        for v in x.values():
+            out.extend(_const_defs_in(v))
+    elif isinstance(x, list):
+        for v in x:
+            out.extend(_const_defs_in(v))
+    return out
+
+
 def rule_HT1(ctx, tier):
     rr = RuleResult("HT1", "HTTP layer: handler status codes are all mapped explicitly; every emitted error code is documented; router shape")
     P = ctx.prog
@@ -409,8 +424,12 @@ def rule_HT1(ctx, tier):
     defs = set()
     for bb in ms.rpo():
         for s in ms.blocks[bb]["s"]:
-            if s["k"] == "assign" and s["rv"]["k"] == "use" and "k" in s["rv"]["o"] and s["rv"]["o"]["k"].get("def", "").startswith("teos_common::errors::"):
-                defs.add((s["rv"]["o"]["k"]["def"], tuple(sorted(f[2] for f in facts_at(ctx, ms, bb) if f[0] == "variant"))))
+            if s["k"] != "assign":
+                continue
+            # the constant may be copied into a local or put straight into the returned pair
+            for dname in _const_defs_in(s["rv"]):
+                if dname.startswith("teos_common::errors::"):
+                    defs.add((dname, tuple(sorted(f[2] for f in facts_at(ctx, ms, bb) if f[0] == "variant"))))
     if not matched:
         rr.fail("match_status-shape", "cannot find the Code match in match_status", where=ms.span)
     for code, (b, bb) in sorted(emitted.items()):
@@ -511,6 +530,30 @@ def rule_HT1(ctx, tier):
                 if "api::http::ApiError::" in tg and tg.split("::")[-1] in ("empty_field", "wrong_field_length", "missing_field", "wrong_field_type", "wrong_field_format"):
                     a0 = arg_origin(ctx, hb, bb, 0)
                     got.add((tg.split("::")[-1], a0[1] if a0[0] == "const" else og.show(a0)[:30]))
+        # a length refusal is reached only where the length was found to differ from the wire constant of that field
+        LEN_CONST = {"user_id": "teos_common::USER_ID_LEN", "locator": "teos_common::appointment::LOCATOR_LEN"}
+        from .rulekit import rel_of_term
+        for bid in P.family(hfn) if hfn in P.bodies else []:
+            hb = P.bodies[bid]
+            for bb, t in hb.calls():
+                tg = call_target(t) or ""
+                if not tg.endswith("api::http::ApiError::wrong_field_length"):
+                    continue
+                a0 = arg_origin(ctx, hb, bb, 0)
+                fld = a0[1] if a0[0] == "const" else None
+                okp = False
+                for f in facts_at(ctx, hb, bb):
+                    if f[0] != "truth":
+                        continue
+                    for op, l, r in rel_of_term(f[1], f[2]):
+                        k = og.strip(r)
+                        if op == "Ne" and isinstance(k, tuple) and k and k[0] == "const" and len(k) > 2 and k[2] == LEN_CONST.get(fld) \
+                                and has_call(l, "len") and ("f:%s" % fld) in og.show(l):
+                            okp = True
+                if okp:
+                    rr.ok("http::%s refuses `%s` for its length only when len != %s" % (m, fld, LEN_CONST.get(fld, "?").split("::")[-1]))
+                else:
+                    rr.fail("length-check-polarity:%s.%s" % (m, fld), "http::%s answers wrong_field_length(\"%s\") on a path where the length was not found to differ from %s: well-formed requests are refused and malformed ones reach the internal API" % (m, fld, LEN_CONST.get(fld, "the wire constant")), where=hb.line_of(bb))
         if got == want:
             rr.ok("http::%s validates %s" % (m, sorted(want)), sample={"rule": "HT1", "handler": m, "field checks": sorted(got)})
         else:
